@@ -300,6 +300,17 @@ fn make_data(rng: &mut Rng, len: usize, kh_mode: u8) -> Vec<u8> {
         let (a, b) = d.split_at_mut(32);
         b[..32].copy_from_slice(a);
     }
+    if kh_mode >= 5 {
+        // layouts shifted by one byte: a control byte in front of an otherwise consistent payload
+        // (length byte at offset 65), or the length byte one position early (offset 63)
+        if kh_mode == 5 && len > 65 {
+            d[0] = *rng.pick(&[3u8, 7, 8]);
+            d[65] = ((len - 66) % 256) as u8;
+        } else if len > 63 {
+            d[63] = ((len - 64) % 256) as u8;
+        }
+        return d;
+    }
     if len > 64 {
         let consistent = (len - 65) as i64;
         let v = match kh_mode {
@@ -384,7 +395,7 @@ pub fn run(rep: &mut Rep) {
                 }
                 let mut rng = Rng::derive(seed, "c08-x", case);
                 for &l in &xlens {
-                    for kh_mode in 0..5u8 {
+                    for kh_mode in 0..7u8 {
                         if l <= 64 && kh_mode > 0 {
                             continue;
                         }
@@ -474,7 +485,7 @@ pub fn run(rep: &mut Rep) {
             1 => 65 + rng.usize(256),
             _ => rng.usize(400),
         };
-        let mode = if rng.chance(2, 3) { 0 } else { 1 + rng.below(4) as u8 };
+        let mode = if rng.chance(2, 3) { 0 } else { 1 + rng.below(6) as u8 };
         let data = make_data(&mut rng, l, mode);
         if i % 4096 == 0 && !rep.begin("random") {
             continue;
